@@ -393,7 +393,22 @@ def optimised_cases():
     return out
 
 
+def fixed_good():
+    """id-less (random) and id calls on hand-written weight shapes: fractional shares with a whole-number total (the running
+    totals then end in an int), zeros in every position, one item, many equal items"""
+    shapes = [[0.25, 0.25, 0, 0.5], [0.5, 1, 0, 0.5], [0.5, 0.5], [0.25, 0.75], [1.5, 0.5, 2], [1, 2, 3], [0, 0, 4], [4, 0, 0], [0.5, 0, 0.5, 0, 1, 0], [3],
+              [0.125] * 8, [0.1] * 10, [1, 1e-9], [1e9, 1], [2.5, 2.5, 5, 10, 20, 40, 20]]
+    for si, ws in enumerate(shapes):
+        for uid, seed in ((None, 1), (None, 20240 + si), ("unit-%d" % si, 0), ("", 0)):
+            yield {"kind": "good", "id": uid, "pop": list(range(len(ws))), "tuple": si % 2 == 0, "ws": ws, "unhashable": si % 3 == 0, "wtuple": si % 4 == 1,
+                   "pairs": False, "scale_exp": 0, "c": 3, "seed": seed}
+
+
 def run(ctx, rec):
+    if ctx.shard == 0:
+        runner.direct_run(ctx, rec, "hand-written-shapes", fixed_good(), judge)
+        if rec.violations:
+            return
     if ctx.shard == 0:
         # the contract does not depend on how the interpreter was started: python -O / -OO (assert and __debug__ blocks compiled out)
         cases = optimised_cases()
